@@ -71,7 +71,15 @@ def generate(rng, tier):
         if rng.random() < 0.15:
             nl = t.count("\n")
             for kk in range(0, nl + 2):
-                cases.append(Case("scan.read", [enc(t), str(kk)], meta={"nt": True, "fault": "io"}))
+                # every error kind fails the whole read (none is skipped as 'just one bad line')
+                cases.append(Case("scan.read", [enc(t), str(kk) + rng.choice(["", "", ":I", ":E", ":B"])], meta={"nt": True, "fault": "io"}))
+        if rng.random() < 0.2:
+            # raw bytes: a line that is not UTF-8 is an I/O error of BufRead::lines and fails the read; valid UTF-8 passes
+            b = t.encode("utf-8")
+            i = rng.randrange(len(b) + 1)
+            bad = b[:i] + rng.choice([b"\xe9", b"\xff", b"\xc3", b"\xa0"]) + b[i:]
+            cases.append(Case("scan.readb", [enc(bad), "N"], meta={"nt": True, "fault": "non-utf8"}))
+            cases.append(Case("scan.readb", [enc(b[:i] + "é漢".encode("utf-8") + b[i:]), "N"], meta={"nt": True, "fault": "utf8"}))
     return cases
 
 
